@@ -295,7 +295,7 @@ def check_cfg(F, R, cfg):
                         bad.append("constructed outside curve25519_dalek")
                     (R.viol if bad else R.ok)("C06.constructors", I(key), ("RistrettoPoint wrapped around unvalidated input: " + ", ".join(bad)) if bad else
                                               "operand built from Ristretto points / scalars / constants only", *((fv.loc(s[3]),) if bad else ()))
-    R.floor("C06.constructors", I("RistrettoPoint aggregate sites"), n_sites, 14)
+    R.floor("C06.constructors", I("RistrettoPoint aggregate sites"), n_sites, 14 if F.has_cfg("feature=precomputed-tables") else 11)
 
 
 def same(a, b):
